@@ -570,6 +570,21 @@ impl endpoint::Session for ListenerSession {
                 } else {
                     // Session-level flow with no link handle — nothing to buffer.
                 }
+
+                // The session-level part of the flow may have re-opened the remote incoming
+                // window. The transfers that were held back are released as they would have
+                // been without the error
+                if self.session.remote_incoming_window > 0
+                    && !self
+                        .session
+                        .remote_incoming_window_exhausted_buffer
+                        .is_empty()
+                {
+                    let frames = self
+                        .session
+                        .prepare_session_frames_from_buffered_transfers(Vec::new())?;
+                    return Ok(Some(SessionOutgoingItem::MultipleFrames(frames)));
+                }
                 Ok(None)
             }
             Err(e) => Err(e),
